@@ -40,6 +40,34 @@ def test_c():
     assert {"k": [1, 2]} == snapshot({"k": [1], "z": 0})
     assert 1 == 2
 '''}, None),
+    ("two-files-hasrepr-external", {"test_a.py": '''from inline_snapshot import snapshot, outsource
+
+
+class Thing:
+    def __repr__(self):
+        return "<Thing at home>"
+
+    def __eq__(self, other):
+        if not isinstance(other, Thing):
+            return NotImplemented
+        return True
+
+
+def test_a():
+    assert Thing() == snapshot()
+    assert outsource("some text") == snapshot()
+''', "test_b.py": '''from inline_snapshot import snapshot
+
+
+def test_b():
+    assert [1, 2] == snapshot()
+    assert 5 == snapshot(4)
+''', "test_c.py": '''from inline_snapshot import snapshot, outsource
+
+
+def test_c():
+    assert outsource(b"bytes") == snapshot()
+'''}, None),
     ("black-line-length", {"test_case.py": '''from inline_snapshot import snapshot
 
 
